@@ -301,6 +301,8 @@ class C10(PropCheck):
     def generate(self):
         self._ensure_gen()
         n_rec = 60 if self.tier == 'quick' else 700
+        if getattr(self, '_search_mode', False):
+            n_rec = 12 if self.tier == 'quick' else 60
         r = self.rng
         for _ in range(n_rec):
             rec = self._recipe()
@@ -670,7 +672,11 @@ class C10(PropCheck):
                 bad = [m for c, m in self.py_check(case, out) if c == 'gradient_is_derivative']
                 if bad:
                     return Failure('ok', None, case, out, 'gradient_is_derivative (search after %s): %s' % ('; '.join(r.split('\n')[0][:80] for r in reason), bad[0]))
-        return super().search(reason, budget_s=max(5, budget_s - (time.time() - t0)))
+        self._search_mode = True
+        try:
+            return super().search(reason, budget_s=max(5, budget_s - (time.time() - t0)))
+        finally:
+            self._search_mode = False
 
 
 if __name__ == '__main__':
